@@ -366,8 +366,10 @@ impl<'a, R: Clone> AsyncGlobalCache<'a, R> {
                 #[cfg(feature = "stats")]
                 self.stats.record_hit();
 
-                // Update LRU order on cache hit (after releasing DashMap lock)
-                if self.limit.is_some()
+                // Update LRU order on cache hit (after releasing DashMap lock).
+                // The order only matters when something can be evicted, i.e. when an entry
+                // limit or a memory limit is configured.
+                if (self.limit.is_some() || self.max_memory.is_some())
                     && (self.policy == EvictionPolicy::LRU
                         || self.policy == EvictionPolicy::ARC
                         || self.policy == EvictionPolicy::TLRU)
